@@ -3,6 +3,8 @@ CONSTANTS
   Need <- NeedDef
   NProcs = {1, 2, 3}
   SharedPerChunk = FALSE
+  OptSets <- OptsAll
+  SwapOptions = FALSE
   Export = FALSE
 INIT TInit
 NEXT TNext
